@@ -63,6 +63,8 @@ public:
 
   Map& operator=(const Map& other)
   {
+    if(this == &other)
+      return *this;
     clear();
     for(const Item* i = other._begin.item, * end = &other.endItem; i != end; i = i->next)
       insert(i->key, i->value);
